@@ -102,9 +102,10 @@ func replay(path string) int {
 }
 
 type shardRun struct {
-	res    *mon.Result
-	deaths []mon.Violation
-	incon  []string
+	res       *mon.Result
+	deaths    []mon.Violation
+	incon     []string
+	deadCases []string
 }
 
 func runShard(p *props.Prop, cfg mon.Config, bin, dir string, shard int, fatalIsViolation bool) shardRun {
@@ -177,7 +178,8 @@ func runShard(p *props.Prop, cfg mon.Config, bin, dir string, shard int, fatalIs
 			}
 			sr.deaths = append(sr.deaths, v)
 		} else {
-			sr.incon = append(sr.incon, fmt.Sprintf("shard %d died in case %s: %v\n%s", shard, last, werr, tail))
+			// the case is inconclusive (harness or library died there); the shard resumes after it
+			sr.deadCases = append(sr.deadCases, fmt.Sprintf("shard %d died in case %s: %v :: %s", shard, last, werr, firstLine(tail)))
 		}
 		resume = class + "#" + strconv.Itoa(idx)
 	}
@@ -291,10 +293,12 @@ func parent(p *props.Prop, cfg mon.Config) int {
 	var rs []*mon.Result
 	var incon []string
 	var deaths []mon.Violation
+	var deadCases []string
 	for _, r := range runs {
 		rs = append(rs, r.res)
 		incon = append(incon, r.incon...)
 		deaths = append(deaths, r.deaths...)
+		deadCases = append(deadCases, r.deadCases...)
 	}
 	merged := mon.Merge(rs)
 	merged.Violations = append(merged.Violations, deaths...)
@@ -373,7 +377,11 @@ func parent(p *props.Prop, cfg mon.Config) int {
 	if min == 0 {
 		min = 2
 	}
-	inconCases, allCases := 0, 0
+	inconCases, allCases := len(deadCases), 0
+	for _, dc := range deadCases {
+		fmt.Printf("INCONCLUSIVE-CASE: %s\n", trunc(dc, 400))
+	}
+	extra["worker_deaths"] = deadCases
 	for _, v := range merged.Classes {
 		allCases += v.Cases
 		for _, n := range v.Inconclusive {
